@@ -266,7 +266,8 @@ impl Workdir {
         let _ = std::fs::remove_dir_all(&path);
         std::fs::create_dir_all(&path).unwrap();
         let w = Workdir { path };
-        w.write("char.def", &std::fs::read_to_string("/repo/resources/char.def").unwrap());
+        w.write("char.def", &std::fs::read_to_string("/repo/sudachi/tests/resources/char.def").unwrap());
+        w.write("char_full.def", &std::fs::read_to_string("/repo/resources/char.def").unwrap());
         w.write("unk.def", &std::fs::read_to_string("/repo/sudachi/tests/resources/unk.def").unwrap());
         w.write("rewrite.def", &std::fs::read_to_string("/repo/resources/rewrite.def").unwrap());
         w
@@ -290,9 +291,13 @@ pub fn simple_oov_json(left: i64, right: i64, cost: i64) -> String {
 
 /// configuration JSON; every list holds complete plugin objects
 pub fn config_json(wd: &Workdir, input: &[String], oov: &[String], path_rewrite: &[String], conn: &[String]) -> String {
+    config_json_cd(wd, "char.def", input, oov, path_rewrite, conn)
+}
+
+pub fn config_json_cd(wd: &Workdir, chardef: &str, input: &[String], oov: &[String], path_rewrite: &[String], conn: &[String]) -> String {
     format!(
-        r#"{{"path":"{}","characterDefinitionFile":"char.def","connectionCostPlugin":[{}],"inputTextPlugin":[{}],"oovProviderPlugin":[{}],"pathRewritePlugin":[{}]}}"#,
-        wd.path.display(), conn.join(","), input.join(","), oov.join(","), path_rewrite.join(",")
+        r#"{{"path":"{}","characterDefinitionFile":"{}","connectionCostPlugin":[{}],"inputTextPlugin":[{}],"oovProviderPlugin":[{}],"pathRewritePlugin":[{}]}}"#,
+        wd.path.display(), chardef, conn.join(","), input.join(","), oov.join(","), path_rewrite.join(",")
     )
 }
 
